@@ -1,6 +1,1097 @@
-//! C46 — not implemented yet.
-use mc_core::Ctx;
+//! C46 — WASM instrumentation preserves program meaning.
+//!
+//! Programs: every well-typed expression tree of <= N nodes (quick 4, thorough 5) of a harness mini-language
+//! (i32/i64 constants {0,1,-1,MAX}, locals get/tee, add sub mul div_s rem_u shl shr_u, eq lt_s gt_u eqz,
+//! wrap/extend, select, if/else, block+br_if, one bounded loop per function, one call of a second function whose
+//! body is part of the tree, load/store at {0, 4, last page - 4, out of bounds}, unreachable, br_table),
+//! compiled to a two-function WASM module by the harness (wasm-encoder; validated with wasmparser 0.244).
+//!
+//! Each program is run for all 16 argument vectors over {0,1,-1,MAX}^2 by
+//!   R  a reference interpreter of the mini-language (value or trap kind, branch-decision trace);
+//!   U  the uninstrumented module in wasmi 0.39.1 directly;
+//!   I  the output of the real `ScryptoV1WasmValidator::validate` in wasmi directly, with a harness `env.gas`
+//!      host function accumulating the metered units (unlimited budget);
+//!   E  the same instrumented code through the engine's own `WasmiEngine::instantiate` + `invoke_export`
+//!      with the recording mock `WasmRuntime` (cold instance and cache-warm instance of the same engine).
+//! Oracle: R = U = I = E on results and trap kinds; metered cost identical between two runs, between cold and
+//! warm engine instances, and identical for any two argument vectors with the same R trace (decisions + trap
+//! position). The trace comes from the independent interpreter.
+use crate::mock::new_runtime;
+use mc_core::{catch, par_range, Ctx, Level, Local};
+use radix_common::crypto::Hash;
+use radix_engine::vm::wasm::{ScryptoV1WasmValidator, WasmEngine, WasmInstance, WasmiEngine};
+use radix_engine::vm::ScryptoVmVersion;
+use radix_engine_interface::blueprints::package::{BlueprintDefinitionInit, CodeHash};
+use radix_engine_interface::types::Buffer;
+use serde_json::{json, Map};
+use std::cell::RefCell;
+use std::collections::BTreeMap;
+use std::sync::atomic::{AtomicU64, Ordering};
+use std::sync::Arc;
 
-pub fn run(_ctx: Ctx) -> ! {
-    mc_core::machinery_error("C46: not implemented")
+#[derive(Clone, Copy, PartialEq, Eq, Debug, PartialOrd, Ord)]
+pub enum Ty {
+    I32,
+    I64,
+}
+
+#[derive(Clone, Copy, PartialEq, Eq, Debug)]
+pub enum BinOp {
+    Add,
+    Sub,
+    Mul,
+    DivS,
+    RemU,
+    Shl,
+    ShrU,
+}
+const BINOPS: [BinOp; 7] = [BinOp::Add, BinOp::Sub, BinOp::Mul, BinOp::DivS, BinOp::RemU, BinOp::Shl, BinOp::ShrU];
+
+#[derive(Clone, Copy, PartialEq, Eq, Debug)]
+pub enum CmpOp {
+    Eq,
+    LtS,
+    GtU,
+}
+const CMPOPS: [CmpOp; 3] = [CmpOp::Eq, CmpOp::LtS, CmpOp::GtU];
+
+const ADDRS: [u32; 4] = [0, 4, 65536 - 4, 65536];
+const CONSTS64: [i64; 4] = [0, 1, -1, i64::MAX];
+const CONSTS32: [i32; 4] = [0, 1, -1, i32::MAX];
+const ARGS: [i64; 4] = [0, 1, -1, i64::MAX];
+const RESULT_ADDR: u32 = 1024;
+
+#[derive(Debug)]
+pub enum E {
+    C32(i32),
+    C64(i64),
+    /// local.get: 0,1 = i64 parameters, 2 = i32 scratch, 3 = i64 scratch
+    L(u8),
+    /// local.tee of the scratch local of the value's type
+    Tee(Ty, N),
+    Bin(Ty, BinOp, N, N),
+    Cmp(Ty, CmpOp, N, N),
+    Eqz(N),
+    Wrap(N),
+    Ext(N),
+    Sel(Ty, N, N, N),
+    If(Ty, N, N, N),
+    /// block (result T) v c br_if 0 drop rest end
+    Brif(Ty, N, N, N),
+    Load(Ty, u8),
+    /// store v at address; then `rest` is the value
+    Store(Ty, u8, N, N),
+    /// call g(arg, local 1); the callee body is the second child
+    Call(N, N),
+    Unr(Ty),
+    /// acc = 0; repeat (n & 3) times: acc = acc*3 + body; value acc
+    Loop(N, N),
+    /// value [10,20,30][min(idx,2)] through br_table
+    BrT(N),
+}
+
+#[derive(Debug)]
+pub struct Node {
+    pub e: E,
+    pub ty: Ty,
+    pub size: u8,
+    pub has_loop: bool,
+    pub has_call: bool,
+}
+pub type N = Arc<Node>;
+
+fn mk(e: E, ty: Ty, kids: &[&N], loop_here: bool, call_here: bool, loop_from: &[&N]) -> N {
+    let size = 1 + kids.iter().map(|k| k.size as u32).sum::<u32>();
+    Arc::new(Node {
+        e,
+        ty,
+        size: size as u8,
+        has_loop: loop_here || loop_from.iter().any(|k| k.has_loop),
+        has_call: call_here || kids.iter().any(|k| k.has_call),
+    })
+}
+
+/// All programs by (type, size). memo[ty][size] (size index 0 unused).
+pub struct Sets {
+    pub s32: Vec<Vec<N>>,
+    pub s64: Vec<Vec<N>>,
+}
+
+impl Sets {
+    fn get(&self, t: Ty, n: usize) -> &Vec<N> {
+        match t {
+            Ty::I32 => &self.s32[n],
+            Ty::I64 => &self.s64[n],
+        }
+    }
+}
+
+fn compatible(kids: &[&N]) -> bool {
+    // one loop and one call per function
+    kids.iter().filter(|k| k.has_loop).count() <= 1 && kids.iter().filter(|k| k.has_call).count() <= 1
+}
+
+pub fn enumerate(max: usize) -> Sets {
+    let mut sets = Sets { s32: vec![vec![]; max + 1], s64: vec![vec![]; max + 1] };
+    for n in 1..=max {
+        for t in [Ty::I32, Ty::I64] {
+            let mut out: Vec<N> = vec![];
+            if n == max && t == Ty::I32 && max > 1 {
+                continue; // programs are i64-valued: the largest i32 set is never used
+            }
+            if n == 1 {
+                match t {
+                    Ty::I32 => {
+                        for c in CONSTS32 {
+                            out.push(mk(E::C32(c), t, &[], false, false, &[]));
+                        }
+                        out.push(mk(E::L(2), t, &[], false, false, &[]));
+                    }
+                    Ty::I64 => {
+                        for c in CONSTS64 {
+                            out.push(mk(E::C64(c), t, &[], false, false, &[]));
+                        }
+                        for k in [0u8, 1, 3] {
+                            out.push(mk(E::L(k), t, &[], false, false, &[]));
+                        }
+                    }
+                }
+                for a in 0..ADDRS.len() as u8 {
+                    out.push(mk(E::Load(t, a), t, &[], false, false, &[]));
+                }
+                out.push(mk(E::Unr(t), t, &[], false, false, &[]));
+            } else {
+                // unary
+                let m = n - 1;
+                for x in sets.get(t, m) {
+                    out.push(mk(E::Tee(t, x.clone()), t, &[x], false, false, &[x]));
+                }
+                match t {
+                    Ty::I32 => {
+                        for x in sets.get(Ty::I32, m) {
+                            out.push(mk(E::Eqz(x.clone()), t, &[x], false, false, &[x]));
+                        }
+                        for x in sets.get(Ty::I64, m) {
+                            out.push(mk(E::Wrap(x.clone()), t, &[x], false, false, &[x]));
+                        }
+                    }
+                    Ty::I64 => {
+                        for x in sets.get(Ty::I32, m) {
+                            out.push(mk(E::Ext(x.clone()), t, &[x], false, false, &[x]));
+                            out.push(mk(E::BrT(x.clone()), t, &[x], false, false, &[x]));
+                        }
+                    }
+                }
+                // binary shapes
+                for a_sz in 1..n.saturating_sub(1) {
+                    let b_sz = n - 1 - a_sz;
+                    if b_sz == 0 {
+                        continue;
+                    }
+                    for a in sets.get(t, a_sz) {
+                        for b in sets.get(t, b_sz) {
+                            if !compatible(&[a, b]) {
+                                continue;
+                            }
+                            for op in BINOPS {
+                                out.push(mk(E::Bin(t, op, a.clone(), b.clone()), t, &[a, b], false, false, &[a, b]));
+                            }
+                        }
+                    }
+                    if t == Ty::I32 {
+                        for ot in [Ty::I32, Ty::I64] {
+                            for a in sets.get(ot, a_sz) {
+                                for b in sets.get(ot, b_sz) {
+                                    if !compatible(&[a, b]) {
+                                        continue;
+                                    }
+                                    for op in CMPOPS {
+                                        out.push(mk(E::Cmp(ot, op, a.clone(), b.clone()), t, &[a, b], false, false, &[a, b]));
+                                    }
+                                }
+                            }
+                        }
+                    }
+                    // store v then rest (rest has the node's type)
+                    for vt in [Ty::I32, Ty::I64] {
+                        for v in sets.get(vt, a_sz) {
+                            for rest in sets.get(t, b_sz) {
+                                if !compatible(&[v, rest]) {
+                                    continue;
+                                }
+                                for ad in 0..ADDRS.len() as u8 {
+                                    out.push(mk(E::Store(vt, ad, v.clone(), rest.clone()), t, &[v, rest], false, false, &[v, rest]));
+                                }
+                            }
+                        }
+                    }
+                    if t == Ty::I64 {
+                        // call: arg (caller frame), body (callee frame: its loop does not count for the caller)
+                        for arg in sets.get(Ty::I64, a_sz) {
+                            if arg.has_call {
+                                continue;
+                            }
+                            for body in sets.get(Ty::I64, b_sz) {
+                                if body.has_call {
+                                    continue;
+                                }
+                                out.push(mk(E::Call(arg.clone(), body.clone()), t, &[arg, body], false, true, &[arg]));
+                            }
+                        }
+                        // loop: count (i32), body (i64)
+                        for cnt in sets.get(Ty::I32, a_sz) {
+                            if cnt.has_loop {
+                                continue;
+                            }
+                            for body in sets.get(Ty::I64, b_sz) {
+                                if body.has_loop || !compatible(&[cnt, body]) {
+                                    continue;
+                                }
+                                out.push(mk(E::Loop(cnt.clone(), body.clone()), t, &[cnt, body], true, false, &[]));
+                            }
+                        }
+                    }
+                }
+                // ternary shapes: select / if / block+br_if: (a: T, b: T, c: i32)
+                if n >= 4 {
+                    for a_sz in 1..=(n - 3) {
+                        for b_sz in 1..=(n - 2 - a_sz) {
+                            let c_sz = n - 1 - a_sz - b_sz;
+                            if c_sz == 0 {
+                                continue;
+                            }
+                            for a in sets.get(t, a_sz) {
+                                for b in sets.get(t, b_sz) {
+                                    for c in sets.get(Ty::I32, c_sz) {
+                                        if !compatible(&[a, b, c]) {
+                                            continue;
+                                        }
+                                        out.push(mk(E::Sel(t, a.clone(), b.clone(), c.clone()), t, &[a, b, c], false, false, &[a, b, c]));
+                                        out.push(mk(E::If(t, c.clone(), a.clone(), b.clone()), t, &[a, b, c], false, false, &[a, b, c]));
+                                        out.push(mk(E::Brif(t, a.clone(), c.clone(), b.clone()), t, &[a, b, c], false, false, &[a, b, c]));
+                                    }
+                                }
+                            }
+                        }
+                    }
+                }
+            }
+            match t {
+                Ty::I32 => sets.s32[n] = out,
+                Ty::I64 => sets.s64[n] = out,
+            }
+        }
+    }
+    sets
+}
+
+pub fn show(n: &Node) -> String {
+    let t = |t: &Ty| if *t == Ty::I32 { "i32" } else { "i64" };
+    match &n.e {
+        E::C32(c) => format!("{c}"),
+        E::C64(c) => format!("{c}L"),
+        E::L(k) => format!("l{k}"),
+        E::Tee(_, x) => format!("tee({})", show(x)),
+        E::Bin(ty, op, a, b) => format!("{}.{:?}({}, {})", t(ty), op, show(a), show(b)),
+        E::Cmp(ty, op, a, b) => format!("{}.{:?}({}, {})", t(ty), op, show(a), show(b)),
+        E::Eqz(x) => format!("eqz({})", show(x)),
+        E::Wrap(x) => format!("wrap({})", show(x)),
+        E::Ext(x) => format!("ext({})", show(x)),
+        E::Sel(_, a, b, c) => format!("select({}, {}, {})", show(a), show(b), show(c)),
+        E::If(_, c, a, b) => format!("if({}) {{{}}} else {{{}}}", show(c), show(a), show(b)),
+        E::Brif(_, v, c, r) => format!("block{{{}; br_if({}); {}}}", show(v), show(c), show(r)),
+        E::Load(ty, a) => format!("{}.load[{}]", t(ty), ADDRS[*a as usize]),
+        E::Store(ty, a, v, r) => format!("{}.store[{}]({}); {}", t(ty), ADDRS[*a as usize], show(v), show(r)),
+        E::Call(a, b) => format!("g({}) where g = {{{}}}", show(a), show(b)),
+        E::Unr(_) => "unreachable".into(),
+        E::Loop(c, b) => format!("loop({})&3 {{acc*3 + {}}}", show(c), show(b)),
+        E::BrT(x) => format!("br_table({})", show(x)),
+    }
+}
+
+// ------------------------------------------------------------------------------------------------
+// reference interpreter
+// ------------------------------------------------------------------------------------------------
+
+#[derive(Clone, Copy, PartialEq, Eq, Debug, PartialOrd, Ord)]
+pub enum Trap {
+    Unreachable,
+    DivZero,
+    IntOverflow,
+    MemOob,
+}
+
+struct Frame {
+    l: [i64; 4],
+}
+
+struct Interp<'a> {
+    mem: &'a mut Vec<u8>,
+    trace: Vec<u8>,
+    steps: u32,
+}
+
+impl<'a> Interp<'a> {
+    fn load(&self, t: Ty, a: u8) -> Result<i64, Trap> {
+        let addr = ADDRS[a as usize] as usize;
+        let w = if t == Ty::I32 { 4 } else { 8 };
+        if addr + w > self.mem.len() {
+            return Err(Trap::MemOob);
+        }
+        let mut b = [0u8; 8];
+        b[..w].copy_from_slice(&self.mem[addr..addr + w]);
+        Ok(if t == Ty::I32 { i32::from_le_bytes([b[0], b[1], b[2], b[3]]) as i64 } else { i64::from_le_bytes(b) })
+    }
+    fn store(&mut self, t: Ty, a: u8, v: i64) -> Result<(), Trap> {
+        let addr = ADDRS[a as usize] as usize;
+        let w = if t == Ty::I32 { 4 } else { 8 };
+        if addr + w > self.mem.len() {
+            return Err(Trap::MemOob);
+        }
+        if t == Ty::I32 {
+            self.mem[addr..addr + 4].copy_from_slice(&(v as i32).to_le_bytes());
+        } else {
+            self.mem[addr..addr + 8].copy_from_slice(&v.to_le_bytes());
+        }
+        Ok(())
+    }
+    /// i32 values are kept sign-extended in an i64
+    fn ev(&mut self, n: &Node, f: &mut Frame) -> Result<i64, Trap> {
+        self.steps += 1;
+        match &n.e {
+            E::C32(c) => Ok(*c as i64),
+            E::C64(c) => Ok(*c),
+            E::L(k) => Ok(f.l[*k as usize]),
+            E::Tee(t, x) => {
+                let v = self.ev(x, f)?;
+                f.l[if *t == Ty::I32 { 2 } else { 3 }] = v;
+                Ok(v)
+            }
+            E::Bin(t, op, a, b) => {
+                let x = self.ev(a, f)?;
+                let y = self.ev(b, f)?;
+                if *t == Ty::I32 {
+                    let (x, y) = (x as i32, y as i32);
+                    let r: i32 = match op {
+                        BinOp::Add => x.wrapping_add(y),
+                        BinOp::Sub => x.wrapping_sub(y),
+                        BinOp::Mul => x.wrapping_mul(y),
+                        BinOp::DivS => {
+                            if y == 0 {
+                                return self.trap(Trap::DivZero);
+                            }
+                            if x == i32::MIN && y == -1 {
+                                return self.trap(Trap::IntOverflow);
+                            }
+                            x / y
+                        }
+                        BinOp::RemU => {
+                            if y == 0 {
+                                return self.trap(Trap::DivZero);
+                            }
+                            ((x as u32) % (y as u32)) as i32
+                        }
+                        BinOp::Shl => x.wrapping_shl((y as u32) & 31),
+                        BinOp::ShrU => ((x as u32) >> ((y as u32) & 31)) as i32,
+                    };
+                    Ok(r as i64)
+                } else {
+                    let r: i64 = match op {
+                        BinOp::Add => x.wrapping_add(y),
+                        BinOp::Sub => x.wrapping_sub(y),
+                        BinOp::Mul => x.wrapping_mul(y),
+                        BinOp::DivS => {
+                            if y == 0 {
+                                return self.trap(Trap::DivZero);
+                            }
+                            if x == i64::MIN && y == -1 {
+                                return self.trap(Trap::IntOverflow);
+                            }
+                            x / y
+                        }
+                        BinOp::RemU => {
+                            if y == 0 {
+                                return self.trap(Trap::DivZero);
+                            }
+                            ((x as u64) % (y as u64)) as i64
+                        }
+                        BinOp::Shl => x.wrapping_shl((y as u64 & 63) as u32),
+                        BinOp::ShrU => ((x as u64) >> (y as u64 & 63)) as i64,
+                    };
+                    Ok(r)
+                }
+            }
+            E::Cmp(t, op, a, b) => {
+                let x = self.ev(a, f)?;
+                let y = self.ev(b, f)?;
+                let r = match (t, op) {
+                    (_, CmpOp::Eq) => x == y,
+                    (_, CmpOp::LtS) => x < y,
+                    (Ty::I32, CmpOp::GtU) => (x as i32 as u32) > (y as i32 as u32),
+                    (Ty::I64, CmpOp::GtU) => (x as u64) > (y as u64),
+                };
+                Ok(r as i64)
+            }
+            E::Eqz(x) => Ok((self.ev(x, f)? as i32 == 0) as i64),
+            E::Wrap(x) => Ok(self.ev(x, f)? as i32 as i64),
+            E::Ext(x) => Ok(self.ev(x, f)? as i32 as i64),
+            E::Sel(_, a, b, c) => {
+                let x = self.ev(a, f)?;
+                let y = self.ev(b, f)?;
+                let z = self.ev(c, f)?;
+                Ok(if z as i32 != 0 { x } else { y })
+            }
+            E::If(_, c, a, b) => {
+                let z = self.ev(c, f)?;
+                if z as i32 != 0 {
+                    self.trace.push(1);
+                    self.ev(a, f)
+                } else {
+                    self.trace.push(0);
+                    self.ev(b, f)
+                }
+            }
+            E::Brif(_, v, c, rest) => {
+                let x = self.ev(v, f)?;
+                let z = self.ev(c, f)?;
+                if z as i32 != 0 {
+                    self.trace.push(3);
+                    Ok(x)
+                } else {
+                    self.trace.push(2);
+                    self.ev(rest, f)
+                }
+            }
+            E::Load(t, a) => match self.load(*t, *a) {
+                Ok(v) => Ok(v),
+                Err(e) => self.trap(e),
+            },
+            E::Store(t, a, v, rest) => {
+                let x = self.ev(v, f)?;
+                if let Err(e) = self.store(*t, *a, x) {
+                    return self.trap(e);
+                }
+                self.ev(rest, f)
+            }
+            E::Call(arg, body) => {
+                let x = self.ev(arg, f)?;
+                let mut g = Frame { l: [x, f.l[1], 0, 0] };
+                self.trace.push(9);
+                let r = self.ev(body, &mut g)?;
+                self.trace.push(10);
+                Ok(r)
+            }
+            E::Unr(_) => self.trap(Trap::Unreachable),
+            E::Loop(cnt, body) => {
+                let c = self.ev(cnt, f)?;
+                let mut i = (c as i32) & 3;
+                let mut acc: i64 = 0;
+                loop {
+                    if i == 0 {
+                        self.trace.push(5);
+                        break;
+                    }
+                    self.trace.push(4);
+                    let b = self.ev(body, f)?;
+                    acc = acc.wrapping_mul(3).wrapping_add(b);
+                    i -= 1;
+                }
+                Ok(acc)
+            }
+            E::BrT(idx) => {
+                let i = self.ev(idx, f)? as i32 as u32;
+                let arm = i.min(2);
+                self.trace.push(6 + arm as u8);
+                Ok([10i64, 20, 30][arm as usize])
+            }
+        }
+    }
+    fn trap(&mut self, t: Trap) -> Result<i64, Trap> {
+        // the position of the trap is part of the executed code path
+        self.trace.push(0xF0 + t as u8);
+        self.trace.extend_from_slice(&self.steps.to_le_bytes());
+        Err(t)
+    }
+}
+
+pub fn interpret(p: &Node, a: i64, b: i64, mem: &mut Vec<u8>) -> (Result<i64, Trap>, Vec<u8>) {
+    let mut it = Interp { mem, trace: vec![], steps: 0 };
+    let mut f = Frame { l: [a, b, 0, 0] };
+    let r = it.ev(p, &mut f);
+    (r, it.trace)
+}
+
+// ------------------------------------------------------------------------------------------------
+// compiler to WASM
+// ------------------------------------------------------------------------------------------------
+
+fn vt(t: Ty) -> wasm_encoder::ValType {
+    if t == Ty::I32 {
+        wasm_encoder::ValType::I32
+    } else {
+        wasm_encoder::ValType::I64
+    }
+}
+
+fn emit(n: &Node, f: &mut wasm_encoder::Function, callee: &mut Option<N>) {
+    use wasm_encoder::{BlockType, Instruction as I, MemArg};
+    let m32 = MemArg { offset: 0, align: 2, memory_index: 0 };
+    let m64 = MemArg { offset: 0, align: 3, memory_index: 0 };
+    match &n.e {
+        E::C32(c) => {
+            f.instruction(&I::I32Const(*c));
+        }
+        E::C64(c) => {
+            f.instruction(&I::I64Const(*c));
+        }
+        E::L(k) => {
+            f.instruction(&I::LocalGet(*k as u32));
+        }
+        E::Tee(t, x) => {
+            emit(x, f, callee);
+            f.instruction(&I::LocalTee(if *t == Ty::I32 { 2 } else { 3 }));
+        }
+        E::Bin(t, op, a, b) => {
+            emit(a, f, callee);
+            emit(b, f, callee);
+            f.instruction(&match (t, op) {
+                (Ty::I32, BinOp::Add) => I::I32Add,
+                (Ty::I32, BinOp::Sub) => I::I32Sub,
+                (Ty::I32, BinOp::Mul) => I::I32Mul,
+                (Ty::I32, BinOp::DivS) => I::I32DivS,
+                (Ty::I32, BinOp::RemU) => I::I32RemU,
+                (Ty::I32, BinOp::Shl) => I::I32Shl,
+                (Ty::I32, BinOp::ShrU) => I::I32ShrU,
+                (Ty::I64, BinOp::Add) => I::I64Add,
+                (Ty::I64, BinOp::Sub) => I::I64Sub,
+                (Ty::I64, BinOp::Mul) => I::I64Mul,
+                (Ty::I64, BinOp::DivS) => I::I64DivS,
+                (Ty::I64, BinOp::RemU) => I::I64RemU,
+                (Ty::I64, BinOp::Shl) => I::I64Shl,
+                (Ty::I64, BinOp::ShrU) => I::I64ShrU,
+            });
+        }
+        E::Cmp(t, op, a, b) => {
+            emit(a, f, callee);
+            emit(b, f, callee);
+            f.instruction(&match (t, op) {
+                (Ty::I32, CmpOp::Eq) => I::I32Eq,
+                (Ty::I32, CmpOp::LtS) => I::I32LtS,
+                (Ty::I32, CmpOp::GtU) => I::I32GtU,
+                (Ty::I64, CmpOp::Eq) => I::I64Eq,
+                (Ty::I64, CmpOp::LtS) => I::I64LtS,
+                (Ty::I64, CmpOp::GtU) => I::I64GtU,
+            });
+        }
+        E::Eqz(x) => {
+            emit(x, f, callee);
+            f.instruction(&I::I32Eqz);
+        }
+        E::Wrap(x) => {
+            emit(x, f, callee);
+            f.instruction(&I::I32WrapI64);
+        }
+        E::Ext(x) => {
+            emit(x, f, callee);
+            f.instruction(&I::I64ExtendI32S);
+        }
+        E::Sel(_, a, b, c) => {
+            emit(a, f, callee);
+            emit(b, f, callee);
+            emit(c, f, callee);
+            f.instruction(&I::Select);
+        }
+        E::If(t, c, a, b) => {
+            emit(c, f, callee);
+            f.instruction(&I::If(BlockType::Result(vt(*t))));
+            emit(a, f, callee);
+            f.instruction(&I::Else);
+            emit(b, f, callee);
+            f.instruction(&I::End);
+        }
+        E::Brif(t, v, c, rest) => {
+            f.instruction(&I::Block(BlockType::Result(vt(*t))));
+            emit(v, f, callee);
+            emit(c, f, callee);
+            f.instruction(&I::BrIf(0));
+            f.instruction(&I::Drop);
+            emit(rest, f, callee);
+            f.instruction(&I::End);
+        }
+        E::Load(t, a) => {
+            f.instruction(&I::I32Const(ADDRS[*a as usize] as i32));
+            f.instruction(&if *t == Ty::I32 { I::I32Load(m32) } else { I::I64Load(m64) });
+        }
+        E::Store(t, a, v, rest) => {
+            f.instruction(&I::I32Const(ADDRS[*a as usize] as i32));
+            emit(v, f, callee);
+            f.instruction(&if *t == Ty::I32 { I::I32Store(m32) } else { I::I64Store(m64) });
+            emit(rest, f, callee);
+        }
+        E::Call(arg, body) => {
+            emit(arg, f, callee);
+            f.instruction(&I::LocalGet(1));
+            f.instruction(&I::Call(1)); // function index of g
+            *callee = Some(body.clone());
+        }
+        E::Unr(_) => {
+            f.instruction(&I::Unreachable);
+        }
+        E::Loop(cnt, body) => {
+            emit(cnt, f, callee);
+            f.instruction(&I::I32Const(3));
+            f.instruction(&I::I32And);
+            f.instruction(&I::LocalSet(4));
+            f.instruction(&I::I64Const(0));
+            f.instruction(&I::LocalSet(5));
+            f.instruction(&I::Block(BlockType::Empty));
+            f.instruction(&I::Loop(BlockType::Empty));
+            f.instruction(&I::LocalGet(4));
+            f.instruction(&I::I32Eqz);
+            f.instruction(&I::BrIf(1));
+            f.instruction(&I::LocalGet(5));
+            f.instruction(&I::I64Const(3));
+            f.instruction(&I::I64Mul);
+            emit(body, f, callee);
+            f.instruction(&I::I64Add);
+            f.instruction(&I::LocalSet(5));
+            f.instruction(&I::LocalGet(4));
+            f.instruction(&I::I32Const(1));
+            f.instruction(&I::I32Sub);
+            f.instruction(&I::LocalSet(4));
+            f.instruction(&I::Br(0));
+            f.instruction(&I::End);
+            f.instruction(&I::End);
+            f.instruction(&I::LocalGet(5));
+        }
+        E::BrT(idx) => {
+            f.instruction(&I::Block(BlockType::Result(wasm_encoder::ValType::I64)));
+            f.instruction(&I::Block(BlockType::Empty));
+            f.instruction(&I::Block(BlockType::Empty));
+            f.instruction(&I::Block(BlockType::Empty));
+            emit(idx, f, callee);
+            f.instruction(&I::BrTable(std::borrow::Cow::Borrowed(&[0, 1]), 2));
+            f.instruction(&I::End);
+            f.instruction(&I::I64Const(10));
+            f.instruction(&I::Br(2));
+            f.instruction(&I::End);
+            f.instruction(&I::I64Const(20));
+            f.instruction(&I::Br(1));
+            f.instruction(&I::End);
+            f.instruction(&I::I64Const(30));
+            f.instruction(&I::End);
+        }
+    }
+}
+
+/// module: func 0 = main(i64,i64)->i64 (export "main"), func 1 = g(i64,i64)->i64, func 2 = Test_f (export):
+/// stores main's result at RESULT_ADDR and returns the slice (RESULT_ADDR, 8); memory 1 page exported.
+pub fn compile(p: &Node) -> Vec<u8> {
+    use wasm_encoder::*;
+    let i64t = ValType::I64;
+    let mut m = Module::new();
+    let mut types = TypeSection::new();
+    types.ty().function(vec![i64t, i64t], vec![i64t]);
+    m.section(&types);
+    let mut fs = FunctionSection::new();
+    fs.function(0);
+    fs.function(0);
+    fs.function(0);
+    m.section(&fs);
+    let mut ms = MemorySection::new();
+    ms.memory(MemoryType { minimum: 1, maximum: None, memory64: false, shared: false, page_size_log2: None });
+    m.section(&ms);
+    let mut es = ExportSection::new();
+    es.export("memory", ExportKind::Memory, 0);
+    es.export("main", ExportKind::Func, 0);
+    es.export("Test_f", ExportKind::Func, 2);
+    m.section(&es);
+    let locals = vec![(1, ValType::I32), (1, i64t), (1, ValType::I32), (1, i64t)];
+    let mut cs = CodeSection::new();
+    let mut callee: Option<N> = None;
+    let mut f0 = Function::new(locals.clone());
+    emit(p, &mut f0, &mut callee);
+    f0.instruction(&Instruction::End);
+    cs.function(&f0);
+    let mut f1 = Function::new(locals.clone());
+    match &callee {
+        Some(b) => {
+            let mut none = None;
+            emit(b, &mut f1, &mut none);
+        }
+        None => {
+            f1.instruction(&Instruction::LocalGet(0));
+        }
+    }
+    f1.instruction(&Instruction::End);
+    cs.function(&f1);
+    let mut f2 = Function::new(vec![]);
+    f2.instruction(&Instruction::I32Const(RESULT_ADDR as i32));
+    f2.instruction(&Instruction::LocalGet(0));
+    f2.instruction(&Instruction::LocalGet(1));
+    f2.instruction(&Instruction::Call(0));
+    f2.instruction(&Instruction::I64Store(MemArg { offset: 0, align: 3, memory_index: 0 }));
+    f2.instruction(&Instruction::I64Const(((RESULT_ADDR as i64) << 32) | 8));
+    f2.instruction(&Instruction::End);
+    cs.function(&f2);
+    m.section(&cs);
+    m.finish()
+}
+
+// ------------------------------------------------------------------------------------------------
+// runners
+// ------------------------------------------------------------------------------------------------
+
+type Outcome = Result<i64, String>; // Err(trap kind name)
+
+fn trap_name(t: Trap) -> &'static str {
+    match t {
+        Trap::Unreachable => "UnreachableCodeReached",
+        Trap::DivZero => "IntegerDivisionByZero",
+        Trap::IntOverflow => "IntegerOverflow",
+        Trap::MemOob => "MemoryOutOfBounds",
+    }
+}
+
+struct Raw {
+    store: wasmi::Store<u128>,
+    main: wasmi::TypedFunc<(i64, i64), i64>,
+}
+
+fn raw_instance(engine: &wasmi::Engine, module: &wasmi::Module) -> Result<Raw, String> {
+    let mut store = wasmi::Store::new(engine, 0u128);
+    let mut linker = <wasmi::Linker<u128>>::new(engine);
+    linker
+        .func_wrap("env", "gas", |mut caller: wasmi::Caller<'_, u128>, n: i64| {
+            *caller.data_mut() += n as u64 as u128;
+        })
+        .map_err(|e| e.to_string())?;
+    let inst = linker.instantiate(&mut store, module).map_err(|e| e.to_string())?.ensure_no_start(&mut store).map_err(|e| e.to_string())?;
+    let main = inst.get_typed_func::<(i64, i64), i64>(&store, "main").map_err(|e| e.to_string())?;
+    Ok(Raw { store, main })
+}
+
+impl Raw {
+    fn run(&mut self, a: i64, b: i64) -> (Outcome, u128) {
+        let before = *self.store.data();
+        let r = self.main.call(&mut self.store, (a, b));
+        let cost = *self.store.data() - before;
+        (
+            match r {
+                Ok(v) => Ok(v),
+                Err(e) => Err(match e.as_trap_code() {
+                    Some(c) => format!("{c:?}"),
+                    None => format!("other:{e}"),
+                }),
+            },
+            cost,
+        )
+    }
+}
+
+struct Eng {
+    inst: radix_engine::vm::wasm::WasmiInstance,
+    rt: Box<dyn radix_engine::vm::wasm::WasmRuntime>,
+    st: crate::mock::Shared,
+}
+
+impl Eng {
+    fn new(engine: &WasmiEngine, hash: CodeHash, code: &[u8]) -> Eng {
+        let inst = engine.instantiate(hash, code);
+        let (rt, st) = new_runtime();
+        Eng { inst, rt, st }
+    }
+    fn run(&mut self, a: i64, b: i64) -> (Outcome, u128) {
+        let before = self.st.borrow().gas_total;
+        let r = self.inst.invoke_export("Test_f", vec![Buffer(a as u64), Buffer(b as u64)], &mut self.rt);
+        let cost = self.st.borrow().gas_total - before;
+        (
+            match r {
+                Ok(bytes) if bytes.len() == 8 => Ok(i64::from_le_bytes(bytes.try_into().unwrap())),
+                Ok(bytes) => Err(format!("other:returned {} bytes", bytes.len())),
+                Err(e) => {
+                    let s = format!("{e:?}");
+                    let k = ["UnreachableCodeReached", "IntegerDivisionByZero", "IntegerOverflow", "MemoryOutOfBounds", "StackOverflow"].iter().find(|k| s.contains(*k));
+                    Err(match k {
+                        Some(k) => k.to_string(),
+                        None => format!("other:{}", mc_core::truncate(&s, 160)),
+                    })
+                }
+            },
+            cost,
+        )
+    }
+}
+
+struct Worker {
+    raw_engine: wasmi::Engine,
+    rx_engine: WasmiEngine,
+    validator: ScryptoV1WasmValidator,
+    hash_ctr: u64,
+    wid: u64,
+}
+
+thread_local! {
+    static WORKER: RefCell<Option<Worker>> = const { RefCell::new(None) };
+}
+static WORKER_IDS: AtomicU64 = AtomicU64::new(1);
+static REJECTED_EXAMPLES: std::sync::Mutex<Vec<String>> = std::sync::Mutex::new(Vec::new());
+
+struct Stats {
+    t_compile: AtomicU64,
+    t_validate: AtomicU64,
+    t_inst: AtomicU64,
+    t_runs: AtomicU64,
+    nontrivial: AtomicU64,
+    runs: AtomicU64,
+    cost_groups: AtomicU64,
+    multi_member_groups: AtomicU64,
+}
+
+fn check_program(p: &Node, w: &mut Worker, l: &mut Local, st: &Stats) {
+    l.eval();
+    let t0 = std::time::Instant::now();
+    let code = compile(p);
+    let case = |extra: serde_json::Value| json!({"program": show(p), "nodes": p.size, "wasm_hex": mc_core::hex(&code), "detail": extra});
+    if let Err(e) = crate::reparse::validates(&code, crate::reparse::strict_features()) {
+        mc_core::machinery_error(&format!("C46 compiler produced an invalid module for {}: {e}", show(p)));
+    }
+    st.t_compile.fetch_add(t0.elapsed().as_micros() as u64, Ordering::Relaxed);
+    let t0 = std::time::Instant::now();
+    // instrument through the real validator (no blueprint list: the export constraints are not this property)
+    let none: Vec<BlueprintDefinitionInit> = vec![];
+    let instrumented = match catch(|| w.validator.validate(&code, none.iter())) {
+        Err(pn) => {
+            l.violation("validate-panic", format!("validate panicked: {pn}"), case(json!(null)));
+            return;
+        }
+        Ok(Err(e)) => {
+            // an accepted module is the property's domain; a rejected one is outside it
+            l.info(&format!("program rejected by validate: {}", mc_core::truncate(&format!("{e:?}"), 60)));
+            l.class("rejected by validate (outside the domain)");
+            let mut ex = REJECTED_EXAMPLES.lock().unwrap();
+            // keep the 4 smallest by text: the same ones whatever the thread schedule
+            ex.push(format!("{} => {:?} (wasm {})", show(p), e, mc_core::hex(&code)));
+            ex.sort();
+            ex.truncate(4);
+            return;
+        }
+        Ok(Ok((c, _))) => c,
+    };
+    st.t_validate.fetch_add(t0.elapsed().as_micros() as u64, Ordering::Relaxed);
+    let t0 = std::time::Instant::now();
+    let m_u = match wasmi::Module::new(&w.raw_engine, &code[..]) {
+        Ok(m) => m,
+        Err(e) => mc_core::machinery_error(&format!("wasmi rejects the uninstrumented module of {}: {e}", show(p))),
+    };
+    let m_i = match wasmi::Module::new(&w.raw_engine, &instrumented[..]) {
+        Ok(m) => m,
+        Err(e) => {
+            l.violation("instrumented-module-invalid", format!("wasmi (validating) rejects the instrumented module: {e}"), case(json!(null)));
+            return;
+        }
+    };
+    w.hash_ctr += 1;
+    let mut h = [0u8; 32];
+    h[..8].copy_from_slice(&w.hash_ctr.to_le_bytes());
+    h[8..16].copy_from_slice(&w.wid.to_le_bytes());
+    let hash = CodeHash(Hash(h));
+
+    let mk_raw = |m: &wasmi::Module| raw_instance(&w.raw_engine, m).unwrap_or_else(|e| mc_core::machinery_error(&format!("raw wasmi instantiation failed: {e}")));
+    let mut u = mk_raw(&m_u);
+    let mut i1 = mk_raw(&m_i);
+    let mut i2 = mk_raw(&m_i);
+    let mut cold = Eng::new(&w.rx_engine, hash, &instrumented);
+    let mut warm = Eng::new(&w.rx_engine, hash, &instrumented);
+    let mut mem = vec![0u8; 65536];
+    st.t_inst.fetch_add(t0.elapsed().as_micros() as u64, Ordering::Relaxed);
+    let t0 = std::time::Instant::now();
+    // cost per trace: (trace) -> (cost_I, cost_E, first args)
+    let mut by_trace: BTreeMap<Vec<u8>, (u128, u128, (i64, i64), u32)> = BTreeMap::new();
+    let mut outcomes: std::collections::BTreeSet<String> = Default::default();
+    let mut bad = false;
+    let mut traps_since_fresh = 0u32;
+    'args: for a in ARGS {
+        for b in ARGS {
+            st.runs.fetch_add(1, Ordering::Relaxed);
+            let (r, trace) = interpret(p, a, b, &mut mem);
+            let want: Outcome = r.map_err(|t| trap_name(t).to_string());
+            let (ru, _) = u.run(a, b);
+            let (ri1, c1) = i1.run(a, b);
+            let (ri2, c2) = i2.run(a, b);
+            let (rc, cc) = cold.run(a, b);
+            let (rw, cw) = warm.run(a, b);
+            let d = |x: &Outcome| match x {
+                Ok(v) => format!("value {v}"),
+                Err(e) => format!("trap {e}"),
+            };
+            let detail = || json!({"args": [a, b], "reference": d(&want), "uninstrumented": d(&ru), "instrumented": d(&ri1), "engine_cold": d(&rc), "engine_warm": d(&rw), "cost_instrumented": [c1.to_string(), c2.to_string()], "cost_engine": [cc.to_string(), cw.to_string()]});
+            if ru != want {
+                // the uninstrumented module disagreeing with the reference is a harness (compiler/interpreter) defect
+                mc_core::machinery_error(&format!("C46 reference interpreter and uninstrumented wasmi disagree on {} args ({a},{b}): {} vs {}", show(p), d(&want), d(&ru)));
+            }
+            if ri1 != want || ri2 != want {
+                l.violation("result-differs:instrumented", format!("instrumented code gives {} / {}, original gives {}", d(&ri1), d(&ri2), d(&want)), case(detail()));
+                bad = true;
+                break 'args;
+            }
+            if rc != want || rw != want {
+                l.violation("result-differs:engine", format!("instrumented code through the engine gives {} (cold) / {} (warm), original gives {}", d(&rc), d(&rw), d(&want)), case(detail()));
+                bad = true;
+                break 'args;
+            }
+            if c1 != c2 {
+                l.violation("cost-differs:repeat", format!("two fresh instances charged {c1} and {c2}"), case(detail()));
+                bad = true;
+                break 'args;
+            }
+            if cc != cw {
+                l.violation("cost-differs:cold-warm", format!("cold engine instance charged {cc}, cache-warm instance {cw}"), case(detail()));
+                bad = true;
+                break 'args;
+            }
+            if c1 == 0 || cc == 0 {
+                l.violation("cost-zero", "an execution was charged nothing".to_string(), case(detail()));
+                bad = true;
+                break 'args;
+            }
+            match by_trace.get_mut(&trace) {
+                None => {
+                    by_trace.insert(trace, (c1, cc, (a, b), 1));
+                }
+                Some((k1, kc, first, n)) => {
+                    *n += 1;
+                    if *k1 != c1 || *kc != cc {
+                        l.violation(
+                            "cost-differs:same-path",
+                            format!("args {:?} and ({a},{b}) take the same code path (reference trace) but were charged {}/{} vs {}/{}", first, k1, kc, c1, cc),
+                            case(detail()),
+                        );
+                        bad = true;
+                        break 'args;
+                    }
+                }
+            }
+            outcomes.insert(d(&want));
+            if want.is_err() {
+                traps_since_fresh += 1;
+            }
+            if want.is_err() && traps_since_fresh >= 8 {
+                // A trap leaves the stack-height counter of the instrumented code raised (by at most ~30 units per
+                // trap here, against a limit of 1024; the engine itself never reuses an instance after a trap).
+                // Memory effects before a trap persist identically in the reference. Every 8th trap all
+                // instances and the reference memory are replaced by fresh ones.
+                traps_since_fresh = 0;
+                u = mk_raw(&m_u);
+                i1 = mk_raw(&m_i);
+                i2 = mk_raw(&m_i);
+                cold = Eng::new(&w.rx_engine, hash, &instrumented);
+                warm = Eng::new(&w.rx_engine, hash, &instrumented);
+                mem.iter_mut().for_each(|x| *x = 0);
+            }
+            match &want {
+                Err(t) => l.class(&format!("trap {t}")),
+                Ok(_) => l.class("value"),
+            }
+        }
+    }
+    st.t_runs.fetch_add(t0.elapsed().as_micros() as u64, Ordering::Relaxed);
+    if bad {
+        return;
+    }
+    st.cost_groups.fetch_add(by_trace.len() as u64, Ordering::Relaxed);
+    st.multi_member_groups.fetch_add(by_trace.values().filter(|v| v.3 > 1).count() as u64, Ordering::Relaxed);
+    if outcomes.len() > 1 || by_trace.len() > 1 {
+        st.nontrivial.fetch_add(1, Ordering::Relaxed);
+    }
+    l.sample(|| json!({"program": show(p), "distinct_outcomes": outcomes.len(), "distinct_paths": by_trace.len(), "instrumented_bytes": instrumented.len()}));
+}
+
+pub fn run(ctx: Ctx) -> ! {
+    let max = match std::env::var("MC_C46_NODES").ok().and_then(|s| s.parse::<usize>().ok()) {
+        Some(n) => n,
+        None => ctx.pick(4, 5),
+    };
+    let sets = enumerate(max);
+    if std::env::var("MC_C46_COUNT").is_ok() {
+        for n in 1..=max {
+            println!("size {n}: i32 {} i64 {}", sets.s32[n].len(), sets.s64[n].len());
+        }
+        std::process::exit(0);
+    }
+    let mut programs: Vec<N> = vec![];
+    let mut per_size = vec![];
+    for n in 1..=max {
+        per_size.push(sets.s64[n].len());
+        programs.extend(sets.s64[n].iter().cloned());
+    }
+    let st = Stats { t_compile: AtomicU64::new(0), t_validate: AtomicU64::new(0), t_inst: AtomicU64::new(0), t_runs: AtomicU64::new(0), nontrivial: AtomicU64::new(0), runs: AtomicU64::new(0), cost_groups: AtomicU64::new(0), multi_member_groups: AtomicU64::new(0) };
+    let with_worker = |f: &mut dyn FnMut(&mut Worker)| {
+        WORKER.with(|w| {
+            let mut w = w.borrow_mut();
+            if w.is_none() {
+                let mut cfg = wasmi::Config::default();
+                cfg.compilation_mode(wasmi::CompilationMode::Eager);
+                *w = Some(Worker {
+                    raw_engine: wasmi::Engine::new(&cfg),
+                    rx_engine: WasmiEngine::default(),
+                    validator: ScryptoV1WasmValidator::new(ScryptoVmVersion::latest()),
+                    hash_ctr: 0,
+                    wid: WORKER_IDS.fetch_add(1, Ordering::Relaxed),
+                });
+            }
+            f(w.as_mut().unwrap())
+        })
+    };
+    if let Some(case) = ctx.read_replay_case() {
+        let want = case["program"].as_str().unwrap_or("").to_string();
+        let mut l = Local::new();
+        match programs.iter().find(|p| show(p) == want) {
+            Some(p) => with_worker(&mut |w| check_program(p, w, &mut l, &st)),
+            None => mc_core::machinery_error("replay: program text not found in the enumeration of this tier (try MC_C46_NODES)"),
+        }
+        for v in &l.violations {
+            println!("REPLAY: {} :: {}", v.key, v.what);
+        }
+        if l.violations.is_empty() {
+            println!("REPLAY: no violation reproduced; classes {:?}", l.classes);
+        }
+        ctx.merge(l);
+        ctx.finish(Level::Exploration, "replay", 0, false, Map::new(), &[]);
+    }
+    let block = (programs.len() as u64 / (ctx.threads as u64 * 64)).clamp(1, 512);
+    par_range(&ctx, programs.len() as u64, block, |i, l| {
+        let p = &programs[i as usize];
+        with_worker(&mut |w| check_program(p, w, l, &st));
+    });
+    let mut cov = Map::new();
+    cov.insert("programs".into(), json!(programs.len()));
+    cov.insert("max_nodes".into(), json!(max));
+    cov.insert("programs_per_size".into(), json!(per_size));
+    cov.insert("argument_vectors_per_program".into(), json!(16));
+    cov.insert("executions_compared".into(), json!(st.runs.load(Ordering::Relaxed)));
+    cov.insert("distinct_code_paths".into(), json!(st.cost_groups.load(Ordering::Relaxed)));
+    cov.insert("code_paths_taken_by_several_argument_vectors".into(), json!(st.multi_member_groups.load(Ordering::Relaxed)));
+    cov.insert("cpu_seconds".into(), json!({"compile+check": st.t_compile.load(Ordering::Relaxed) as f64 / 1e6, "validate(instrument)": st.t_validate.load(Ordering::Relaxed) as f64 / 1e6, "instantiate": st.t_inst.load(Ordering::Relaxed) as f64 / 1e6, "runs": st.t_runs.load(Ordering::Relaxed) as f64 / 1e6}));
+    {
+        let mut ex = REJECTED_EXAMPLES.lock().unwrap().clone();
+        ex.sort();
+        for e in ex {
+            ctx.note(format!("valid program rejected by validate (outside the property's domain, informational): {e}"));
+        }
+    }
+    let nontrivial = st.nontrivial.load(Ordering::Relaxed);
+    ctx.finish(
+        Level::Exploration,
+        "programs whose 16 argument vectors produce at least two different outcomes or code paths",
+        nontrivial,
+        true,
+        cov,
+        &[
+            "wasmi 0.39.1 executing the uninstrumented module is trusted only after it agreed with the independent reference interpreter on every run (disagreement = harness error)",
+            "instances are reused across the argument vectors of one program (memory carried over identically in the reference, also across traps) and replaced after every 8th trap, because a trap leaves the injected stack-height counter raised (<= ~30 units per trap against a limit of 1024)",
+            "stack-limit traps cannot occur legitimately: call depth <= 3 with small frames against a limit of 1024",
+            "validate is called without blueprint definitions (export constraints are C45's subject)",
+        ],
+    )
 }
